@@ -16,14 +16,15 @@ INV = ["TruncNeverValue", "InBounds", "PlaceRule", "ByteAlignedAnywhere", "TagRu
        "NeverPanicOnHeader", "ReaderFailRule"]
 
 
-def run_model(typeset, vlevel, mutkind, names_path, tag, tagvals="{2, 3, 9, 85, 255}", bases="{0}", extra=None):
+def run_model(typeset, vlevel, mutkind, names_path, tag, tagvals="{2, 3, 9, 85, 255}", bases="{0}", extra=None,
+              invariants=None):
     cfg = os.path.join(WORK, tag, "mc.cfg")
     os.makedirs(os.path.join(WORK, tag), exist_ok=True)
     consts = dict(FIXED)
     consts.update({"VLevel": vlevel, "TypeSet": typeset, "MutKind": mutkind, "TagVals": tagvals, "Bases": bases})
     if extra:
         consts.update(extra)
-    write_cfg(cfg, consts, invariants=INV + ["EmitR"])
+    write_cfg(cfg, consts, invariants=(invariants or INV) + ["EmitR"])
     r = tlc("MC_Reader", cfg, tag, env={"NAMES": names_path}, workers=8, timeout=3000)
     if not r.ok:
         raise ToolError(f"TLC did not complete on MC_Reader ({typeset}, {mutkind}): violated={r.violated} "
@@ -49,7 +50,7 @@ def apply_mut(m, bs):
     k = m["k"]
     if k == "trunc":
         return bs[:m["a"]]
-    if k in ("tag", "minor"):
+    if k in ("tag", "minor", "byte"):
         off = m["a"]
         bs[off:off + len(m["c"])] = m["c"]
         return bs
